@@ -230,7 +230,8 @@ where
     // encoders
     for v in values(&mut cx.rng, N, nvals) {
         let x = mk::<N>(&v);
-        let need = { let mut b = vec![0u8; w + 8]; x.encode_to_slice(&mut b).map(|s| s.len()).unwrap_or(w + 8) };
+        // (a panic of the code under test is data for the recorded calls below, never a crash of the recorder)
+        let need = std::panic::catch_unwind(std::panic::AssertUnwindSafe(|| { let mut b = vec![0u8; w + 8]; x.encode_to_slice(&mut b).map(|s| s.len()).unwrap_or(w + 8) })).unwrap_or(w + 8);
         let mut caps = vec![w + 8, need];
         if need > 0 { caps.push(need - 1); }
         caps.push(cx.rng.below(need + 1));
